@@ -21,7 +21,7 @@ CACHE = os.path.join(os.path.dirname(os.path.dirname(os.path.dirname(os.path.abs
 def enumerate_shapes(tier="quick", which=None):
     """[(family, shape, placements)]"""
     out = []
-    fams = which or ("field", "array", "length", "dummy", "break", "chunked", "switch", "empty")
+    fams = which or ("field", "array", "length", "dummy", "break", "chunked", "switch", "empty", "comment")
     all_pl = S.PLACEMENTS
     few_pl = ["top", "chunked", "case"]
     if "field" in fams:
@@ -44,6 +44,9 @@ def enumerate_shapes(tier="quick", which=None):
     if "switch" in fams:
         for sh in S.switch_shapes():
             out.append(("switch", sh, all_pl))
+    if "comment" in fams:
+        for sh in S.comment_shapes():
+            out.append(("comment", sh, few_pl))
     if "empty" in fams:
         out.append(("empty", S.empty_object_shape(), all_pl))
     return out
